@@ -13,7 +13,7 @@ from common import run_shards
 from props.c05 import canon
 
 PROP = 'C10'
-COQ_TARGETS = ['Props/C10.vo', 'Run/AgreeCache.vo']
+COQ_TARGETS = ['Props/C10.vo', 'Run/AgreeCache.vo', 'Run/AgreeTypeKey.vo']
 GEN = ['GenCache']
 
 
@@ -334,6 +334,95 @@ def threads_run(rng, out):
     return len(ths) + 8 * 400
 
 
+def typekey_correspondence(ctx, out, rng):
+    """Model/TypeKey.v against typing and pane: == of typing objects, pane's ordered key, and which specialisations of one fresh
+    generic dataclass are the same class object; on pane, every specialisation's field type has exactly the written structure"""
+    import collections
+    import typing as t
+    import pane
+    import typekey as tk
+    thorough = ctx['tier'] == 'thorough'
+    try:
+        from pane.classes import _ordered_type_key
+    except ImportError:
+        out.oblige('corr_typekey', False, 'pane.classes._ordered_type_key is gone: the key of the subclass cache cannot be read')
+        out.violation('C10:corr_typekey:no-key-function', 'pane.classes._ordered_type_key does not exist any more', {'correspondence': 'corr_typekey'}, no_input=True)
+        return
+    pairs, seqs, stats, dropped = [], [], collections.Counter(), 0
+    for _ in range(3000 if thorough else 500):
+        a = tk.gen_tx(rng, 3)
+        b = tk.twin(rng, a) if rng.random() < 0.6 else tk.gen_tx(rng, 3)
+        try:
+            pa, pb = tk.to_py(a), tk.to_py(b)
+            ok = tk.same_structure(tk.from_py(pa), a) and tk.same_structure(tk.from_py(pb), b)
+        except Exception:
+            ok = False
+        if not ok:
+            dropped += 1
+            continue
+        try:
+            oeq, okeq = bool(pa == pb), bool(_ordered_type_key(pa) == _ordered_type_key(pb))
+        except Exception as e:
+            out.violation(f'C10:typekey:{type(e).__name__}', f'_ordered_type_key({pa!r}) / ({pb!r}) raised {type(e).__name__}: {str(e)[:120]}', {'a': repr(pa), 'b': repr(pb)})
+            continue
+        stats[('==' if oeq else '!=') + (' same-key' if okeq else ' other-key') + (' same-text' if tk.same_structure(a, b) else ' other-text')] += 1
+        pairs.append(f'({tk.to_coq(a)}, {tk.to_coq(b)}, {"true" if oeq else "false"}, {"true" if okeq else "false"})')
+    T = t.TypeVar('T')
+    with warnings.catch_warnings():
+        warnings.simplefilter('ignore')
+        for _ in range(600 if thorough else 120):
+            class G(pane.PaneBase, t.Generic[T]):
+                u: T
+            base = [tk.gen_tx(rng, 3) for _ in range(3)]
+            ps = []
+            for _ in range(rng.randint(2, 7)):
+                x = rng.choice(base)
+                ps.append(tk.twin(rng, x) if rng.random() < 0.6 else x)
+            try:
+                pys = [tk.to_py(p) for p in ps]
+                ok = all(tk.same_structure(tk.from_py(y), p) for y, p in zip(pys, ps))
+            except Exception:
+                ok = False
+            if not ok:
+                dropped += 1
+                continue
+            try:
+                classes = [G[y] for y in pys]
+            except Exception as e:
+                out.violation(f'C10:typekey:subscript:{type(e).__name__}', f'G[...] over {pys!r} raised {type(e).__name__}: {str(e)[:120]}', {'parameters': repr(pys)})
+                continue
+            out.evaluations += len(classes)
+            for i, (p, y, c) in enumerate(zip(ps, pys, classes)):
+                ft = c.__pane_info__.fields[0].type
+                try:
+                    same = tk.same_structure(tk.from_py(ft), p)
+                except Exception:
+                    same = False
+                if not same:
+                    out.violation('C10:subclass-cache-not-transparent', f'specialisations {pys[:i + 1]!r} of one generic dataclass, in this order: the field of G[{y!r}] has type {ft!r}, '
+                                  'not the parameter it was subscripted with (member / value order of an earlier, ==-equal parameter)', {'parameters': repr(pys[:i + 1])})
+                    break
+            obs = [next(j for j, c in enumerate(classes) if c is classes[i]) for i in range(len(classes))]
+            seqs.append(f'([{"; ".join(tk.to_coq(p) for p in ps)}], [{"; ".join(str(o) for o in obs)}])')
+    out.evaluations += len(pairs)
+    out.extra['typekey'] = {'pairs': len(pairs), 'sequences': len(seqs), 'dropped (typing interned another spelling)': dropped, 'distribution': dict(sorted(stats.items()))}
+    if any(f in ctx['failed_files'] for f in ('Model/TypeKey.v', 'Run/AgreeTypeKey.v')):
+        out.oblige('corr_typekey', False, 'type-key model does not build')
+        return
+    header = 'From Coq Require Import ZArith List Bool.\nImport ListNotations.\nRequire Import Model.TypeKey Run.AgreeTypeKey.\n'
+    bad1, errs1 = run_shards(PROP, 'tkpair', header, pairs, lambda it: it, per=400, final='pair_mismatches', ty='list pair_case')
+    bad2, errs2 = run_shards(PROP, 'tkseq', header, seqs, lambda it: it, per=200, final='seq_mismatches', ty='list seq_case')
+    errs = errs1 + errs2
+    out.oblige('corr_typekey: Model/TypeKey.v = typing == / pane._ordered_type_key / identity of G[...] classes', not bad1 and not bad2 and not errs,
+               f'{len(bad1)} pair mismatches over {len(pairs)}, {len(bad2)} sequence mismatches over {len(seqs)}, {len(errs)} shard errors')
+    for e in errs[:1]:
+        out.violation('C10:corr_typekey:shard-error', 'shard failed: ' + e[:400], {'correspondence': 'corr_typekey', 'error': e[:1500]}, no_input=True)
+    if (bad1 or bad2) and not out.has_unlisted_input():
+        eg = pairs[bad1[0]] if bad1 else seqs[bad2[0]]
+        out.violation('C10:corr_typekey', f'type-key model and pane / typing disagree on {len(bad1)} pair(s) and {len(bad2)} sequence(s), e.g. {eg[:300]}',
+                      {'correspondence': 'corr_typekey', 'case': eg[:1500]}, no_input=True)
+
+
 def run(ctx, out):
     import families as _famgp
     out.evaluations += _famgp.generic_parameter_twins(out, PROP)
@@ -347,6 +436,7 @@ def run(ctx, out):
                 'type objects alive: every memoised answer (expected(), verdict and value on probe values) is compared with a converter '
                 'built by the unmemoised function; (3) first-seen order reversed; (4) 96 threads converting concurrently vs sequential, '
                 'and an LRU KeyCache hammered by 8 threads. Non-trivial = history longer than 3 operations.')
+    typekey_correspondence(ctx, out, rng)
     # (1)
     items = []
     n_hist = 600 if not thorough else 6000
